@@ -38,6 +38,11 @@ def scratch_top() -> str:
     base = "/dev/shm" if os.access("/dev/shm", os.W_OK) else tempfile.gettempdir()
     top = tempfile.mkdtemp(prefix="vf_%d_" % os.getpid(), dir=base)
     os.environ["VF_SCRATCH_TOP"] = top
+    # temporary files the library itself creates (staging directories of on-disk partitions) go there too
+    tmp = os.path.join(top, "tmp")
+    os.makedirs(tmp, exist_ok=True)
+    os.environ["TMPDIR"] = tmp
+    tempfile.tempdir = tmp
     pid = os.getpid()
 
     def _cleanup(root=top, pid=pid):
